@@ -96,11 +96,13 @@ def gen_keys(rng, cfg, n):
     return keys
 
 
-def gen_history(rng, keys, n, p_remove=0.2, p_expand=0.05, p_reload=0.05):
+def gen_history(rng, keys, n, p_remove=0.2, p_expand=0.05, p_reload=0.05, p_auto=0.03):
     ops = []
     for _ in range(n):
         r = rng.random()
-        if r < p_remove:
+        if r > 1 - p_auto:
+            ops.append(("auto", rng.random() < 0.5))
+        elif r < p_remove:
             ops.append(("remove", rng.choice(keys)))
         elif r < p_remove + p_expand:
             ops.append(("expand",))
@@ -137,6 +139,9 @@ def run_history(ctx, P, cfg, keys, ops, scratch, oracle, on_new=None, stats=None
     newly created object (construction, reload).  Only CuckooFilterFullError is a documented failure."""
     from probables.exceptions import CuckooFilterFullError
 
+    if not hasattr(cfg, "_auto0"):
+        cfg._auto0 = cfg.auto_expand
+    cfg.auto_expand = cfg._auto0
     f = cfg.make(P)
     if on_new:
         on_new(f)
@@ -181,6 +186,11 @@ def run_history(ctx, P, cfg, keys, ops, scratch, oracle, on_new=None, stats=None
             except CuckooFilterFullError as e:
                 outcome = ("full", e)
                 stats["failed_expansions"] += 1
+        elif kind == "auto":
+            f.auto_expand = op[1]  # the documented setter: switch automatic expansion on/off in the middle of a history
+            cfg.auto_expand = bool(op[1])
+            outcome = ("ok", None)
+            stats["auto_expand_toggles"] += 1
         elif kind == "reload":
             f = cfg.reload(P, f, op[1], scratch)
             if on_new:
